@@ -421,7 +421,12 @@ simcam_set(struct Camera* camera, struct CameraProperties* settings)
         .y = shape->dims.height,
     };
 
-    size_t nbytes = aligned_bytes_of_image(shape);
+    // The streamer renders at full resolution and bins down in place, and the
+    // two buffers are swapped: both must hold binning x binning times the
+    // output image.
+    size_t nbytes = aligned_bytes_of_image(shape) *
+                    (size_t)self->properties.binning *
+                    (size_t)self->properties.binning;
     CHECK(self->im.frame_data = checked_realloc(self->im.frame_data, nbytes));
     CHECK(self->im.render_data = checked_realloc(self->im.render_data, nbytes));
 
